@@ -122,6 +122,10 @@ def operand_cases(op: Op, dimA, dimB, tier, boundary=False):
     """All (first operand, second operand or None) pairs for an operation."""
     kinds = ("timelike", "fast", "spacelike", "spacelike_tltz", "negtime")
     firsts = A.vectors(dimA, tier, boundary=boundary and op.name in ("is_lightlike",)) if dimA < 4 else A.vectors4(tier, boundary and op.name in ("is_lightlike",), kinds=kinds)
+    if op.name in ("equal", "not_equal", "isclose"):
+        # comparisons are defined on *stored* coordinates for same-system operands (property C12), so a vector whose
+        # azimuth is stored one turn away is, by contract, not equal/close to its canonical twin: no wildphi here
+        firsts = [a for a in firsts if not a.has("wildphi")]
     if op.other is None:
         return [(a, None) for a in firsts]
     if op.name in ("boost_p4", "boostCM_of_p4") or (op.name in ("boost", "boostCM_of") and dimB == 4):
@@ -157,11 +161,14 @@ _stored_cache = {}
 def stored(vec: A.Vec, system):
     """Exact (60-digit) stored coordinates of an alphabet vector in a system, or None
     when it is not representable there."""
-    key = (vec.comps, system)
+    turns = getattr(vec, "phi_turns", 0)
+    key = (vec.comps, system, turns)
     r = _stored_cache.get(key)
     if r is None and key not in _stored_cache:
         g = vec.mp()
         r = G.to_stored(g, system) if G.representable(g, system) else None
+        if r is not None and turns and system[0] == "rhophi":
+            r = (r[0], r[1] + turns * 2 * G.PI) + tuple(r[2:])
         _stored_cache[key] = r
     return r
 
